@@ -463,7 +463,14 @@ def _run(scn, w, res):
         sim.advance(200_000)
         pending.append((p, a0, len(w.air.trace), advertised, len(rr.rx_fifo) > fifo_before, scn_ch[0]))
         if rx2 is not None:
-            rx2.available()          # the second scanner polls after every packet
+            try:
+                rx2.available()          # the second scanner polls after every packet
+            except SimAbort:
+                raise
+            except Exception as e:    # noqa: BLE001
+                res.add("no_raise", {"kind": "available_raised", "exc": type(e).__name__, "desc": p.get("desc", p["kind"])},
+                        "available() of the second scanner raised %r after packet %r" % (e, p.get("desc", p["kind"])))
+                return
         if j in hold and j != len(scn["packets"]) - 1 and len(rr.rx_fifo) < 3:
             sim.count("poll_skipped")
             continue                 # the application is late: this payload waits in the RX FIFO until after the next packet
